@@ -112,8 +112,9 @@ def make_natives(state, sym):
     def am_status(m, args):
         c = deref(args[0])
         k = len(state["runs"])
+        # outcome: 0 exit 0, 1 exit non-zero, 2 cannot be started, 3 killed by a signal (no exit code)
         if k < 2:
-            o = m.decide_int(sym["out"][k], [0, 1])
+            o = m.decide_int(sym["out"][k], [0, 1, 3] if k == 0 else [0, 1])
         elif k < len(sym["out"]):
             o = 0 if m.decide(sym["out"][k] == 0) else 1
         else:
@@ -122,6 +123,10 @@ def make_natives(state, sym):
         if o is None:
             return Err(Opaque("spawn error"))
         return Ok(Struct("ExitStatus", [o]))
+
+    nat["ExitStatus::success"] = lambda m, a: deref(a[0]).fields[0] == 0
+    nat["ExitStatus::code"] = lambda m, a: (NONE() if deref(a[0]).fields[0] == 3 else Some(0 if deref(a[0]).fields[0] == 0 else 1))
+    nat["<ExitStatus as ExitStatusExt>::signal"] = lambda m, a: (Some(9) if deref(a[0]).fields[0] == 3 else NONE())
 
     nat.update({"Command::new": am_new, "Command::try_args": am_try_args, "Command::try_arg": am_try_arg, "Command::current_dir": am_cwd,
                 "Command::status": am_status, "Command::arg": None})
@@ -166,7 +171,7 @@ def explore(kind, funcs, index, enums):
     state = {}
     nat = make_natives(state, sym)
     m = Machine(funcs, index, enums, models, natives=nat)
-    m.base_constraints = [z3.And(o >= 0, o <= 2) for o in sym["out"]] + [t1 >= 0, t1 < len(TEMPLATES), t2 >= 0, t2 < len(TEMPLATES)]
+    m.base_constraints = [z3.And(o >= 0, o <= 3) for o in sym["out"]] + [t1 >= 0, t1 < len(TEMPLATES), t2 >= 0, t2 < len(TEMPLATES)]
     m.pending = [[]]
     if kind.startswith("multi"):
         expr = ["-execdir" if kind == "multi_dir" else "-exec", "cmd", "fixed", "{}", "+"] + (["-name?"] if False else [])
